@@ -15,7 +15,8 @@ func vstubFileWrite(p []byte) (int, error) { return len(p), nil }
 func VH_C07_Dispatch() {
 	n := 2 + choose(3)
 	ext := vsymstr(n, "sSrRtTaAlLmMvV")
-	name := "dir.d/file.name." + ext
+	name := vtmpdir() + "/file.name." + ext // engine: "dir.d"; native run: a fresh temporary directory with a dot in its name
+	vtouch(name)                             // native run: the file exists and is empty (engine: os.Open is the provider below)
 	vstubFail = false
 	vttmlDoc = nil
 	vtsData, vtsPos = nil, 0
@@ -74,7 +75,9 @@ func vc07Source(src int, s1, s2 int64) (*Subtitles, error) {
 		doc.Subtitles = append(doc.Subtitles, TTMLInSubtitle{Begin: vdur(s1 * 1000000000), End: vdur((10 + s1) * 1000000000)})
 		doc.Subtitles = append(doc.Subtitles, TTMLInSubtitle{Begin: vdur((60 + s2) * 1000000000), End: vdur((70 + s2) * 1000000000)})
 		vttmlDoc, vttmlItems, vttmlItemsPos = doc, []TTMLInItems{{{Text: "Hello"}}, {{Text: "World"}}}, 0
-		return ReadFromTTML(bytes.NewReader(nil))
+		// the same document as text, for native runs (the engine's decode provider ignores the bytes)
+		return ReadFromTTML(bytes.NewReader([]byte("<tt xmlns=\"http://www.w3.org/ns/ttml\" xml:lang=\"en\"><head></head><body><div>" +
+			"<p begin=\"00:00:0" + d1 + ".000\" end=\"00:00:1" + d1 + ".000\">Hello</p><p begin=\"00:01:0" + d2 + ".000\" end=\"00:01:1" + d2 + ".000\">World</p></div></body></tt>")))
 	default:
 		vtsData, vtsPos = nil, 0
 		p := func(sec int64) int64 { return sec * 90000 }
